@@ -187,8 +187,14 @@ pub struct CommonPlayerJson<'a> {
 }
 
 #[cfg(feature = "clap")]
-fn parse_duration_secs(value: &str) -> Result<Duration, std::num::ParseIntError> {
-    let secs = value.parse()?;
+fn parse_duration_secs(value: &str) -> Result<Duration, String> {
+    let secs: u64 = value
+        .parse()
+        .map_err(|e: std::num::ParseIntError| e.to_string())?;
+    // Same rule as TimeoutSettings::new
+    if secs == 0 {
+        return Err("duration must not be 0".to_string());
+    }
     Ok(Duration::from_secs(secs))
 }
 
